@@ -160,6 +160,18 @@ def cmp : Version → Version → Ordering :=
 
 def ordThen (a b : Ordering) : Ordering := a.then b
 
+/-- `Version::cmp_precedence`: SemVer precedence — the derived order without the build metadata -/
+def cmpPrecedence : Version → Version → Ordering :=
+  compareLex (compareOn Version.major) <|
+  compareLex (compareOn Version.minor) <|
+  compareLex (compareOn Version.patch) (cmpVia Version.pre cmpPre)
+
+def plt (a b : Version) : Bool := cmpPrecedence a b == .lt
+def ple (a b : Version) : Bool := cmpPrecedence a b != .gt
+def pgt (a b : Version) : Bool := cmpPrecedence a b == .gt
+def pge (a b : Version) : Bool := cmpPrecedence a b != .lt
+def peq (a b : Version) : Bool := cmpPrecedence a b == .eq
+
 def lt (a b : Version) : Bool := cmp a b == .lt
 def le (a b : Version) : Bool := cmp a b != .gt
 def gt (a b : Version) : Bool := cmp a b == .gt
